@@ -82,6 +82,9 @@ pub struct Case {
     /// low-level solvers only: build the solver with dense_output(false)
     #[serde(default)]
     pub low_nodense: bool,
+    /// low-level solvers only: call `solve` with `None` for the callback
+    #[serde(default)]
+    pub low_nosolout: bool,
     /// low-level explicit solvers only: at every callback redo the step from (xold, yold) with a fresh solver and
     /// compare its interpolant with the one handed out (the interpolant of a step depends on that step alone)
     #[serde(default)]
@@ -579,31 +582,33 @@ pub fn execute(case: &Case, instr: &Instr) -> Outcome {
             }
         } else {
             let mut so = RecSolOut { instr, k: 0, yold: Vec::new(), script: case.script.clone() };
+            // low_nosolout: the documented call without a callback
+            let mut so_opt: Option<&mut RecSolOut> = if case.low_nosolout { None } else { Some(&mut so) };
             let ms = case.max_steps;
             let res = match case.method.as_str() {
                 "RK4" => {
                     let s = RK4::builder().max_steps(ms.unwrap_or(100_000)).dense_output(!case.low_nodense).build();
                     let h = case.first_step.unwrap_or((case.xend - case.x0) / 100.0);
-                    s.solve(instr, case.x0, &case.y0, case.xend, h, Some(&mut so))
+                    s.solve(instr, case.x0, &case.y0, case.xend, h, so_opt.take())
                 }
                 "RK23" => RK23::builder().maybe_max_step(case.max_step).maybe_first_step(case.first_step)
                     .max_steps(ms.unwrap_or(10_000)).dense_output(!case.low_nodense).build()
-                    .solve(instr, case.x0, &case.y0, case.xend, tol(&case.rtol, case.tol_vec), tol(&case.atol, case.tol_vec), Some(&mut so)),
+                    .solve(instr, case.x0, &case.y0, case.xend, tol(&case.rtol, case.tol_vec), tol(&case.atol, case.tol_vec), so_opt.take()),
                 "DOPRI5" => DOPRI5::builder().maybe_max_step(case.max_step).maybe_first_step(case.first_step)
                     .max_steps(ms.unwrap_or(100_000)).dense_output(!case.low_nodense).build()
-                    .solve(instr, case.x0, &case.y0, case.xend, tol(&case.rtol, case.tol_vec), tol(&case.atol, case.tol_vec), Some(&mut so)),
+                    .solve(instr, case.x0, &case.y0, case.xend, tol(&case.rtol, case.tol_vec), tol(&case.atol, case.tol_vec), so_opt.take()),
                 "DOP853" => DOP853::builder().maybe_max_step(case.max_step).maybe_first_step(case.first_step)
                     .max_steps(ms.unwrap_or(100_000)).dense_output(!case.low_nodense).build()
-                    .solve(instr, case.x0, &case.y0, case.xend, tol(&case.rtol, case.tol_vec), tol(&case.atol, case.tol_vec), Some(&mut so)),
+                    .solve(instr, case.x0, &case.y0, case.xend, tol(&case.rtol, case.tol_vec), tol(&case.atol, case.tol_vec), so_opt.take()),
                 "RADAU" => {
                     let b = RADAU::builder().maybe_max_step(case.max_step).maybe_min_step(case.min_step).maybe_first_step(case.first_step)
                         .max_steps(ms.unwrap_or(100_000)).jac_storage(storage(&case.jac_storage, n, bw)).dense_output(!case.low_nodense);
                     let s = if case.mass_storage == "default" { b.build() } else { b.mass_storage(storage(&case.mass_storage, n, bw)).build() };
-                    s.solve(instr, case.x0, &case.y0, case.xend, tol(&case.rtol, case.tol_vec), tol(&case.atol, case.tol_vec), Some(&mut so))
+                    s.solve(instr, case.x0, &case.y0, case.xend, tol(&case.rtol, case.tol_vec), tol(&case.atol, case.tol_vec), so_opt.take())
                 }
                 _ => BDF::builder().maybe_max_step(case.max_step).maybe_min_step(case.min_step).maybe_first_step(case.first_step)
                     .max_steps(ms.unwrap_or(100_000)).jac_storage(storage(&case.jac_storage, n, bw)).build()
-                    .solve(instr, case.x0, &case.y0, case.xend, tol(&case.rtol, case.tol_vec), tol(&case.atol, case.tol_vec), Some(&mut so)),
+                    .solve(instr, case.x0, &case.y0, case.xend, tol(&case.rtol, case.tol_vec), tol(&case.atol, case.tol_vec), so_opt.take()),
             };
             match res {
                 Ok(r) => Outcome::Low { status: status_name(r.status).to_string(), h: r.h, nfev: r.evals.ode, njev: r.evals.jac,
@@ -724,7 +729,7 @@ pub fn trace(case: &Case, instr: &Instr, out: &Outcome) -> Vec<Value> {
         "m": {"x0_lo": rk.rank(x0_lo), "xend_lo": rk.rank(xend_lo), "xend_hi": rk.rank(xend_hi)},
         "teval": case.t_eval.as_ref().map(|v| v.iter().map(|t| tj(*t)).collect::<Vec<_>>()).unwrap_or_default(),
         "hasT": case.t_eval.is_some(),
-        "hasFs": case.first_step.is_some(), "hasMs": case.max_step.is_some(), "hasMin": case.min_step.map_or(false, |m| m != 0.0),
+        "hasFs": case.first_step.is_some(), "hasMs": case.max_step.is_some(), "hasMin": case.min_step.map_or(false, |m| m != 0.0), "nocb": case.low_nosolout,
         "maxsteps": case.max_steps.map(|v| v as i64).unwrap_or(-1),
         "dense": case.dense, "lowdense": !case.low_nodense,
         "events": case.events.iter().map(|e| json!({"dir": e.dir, "term": e.term})).collect::<Vec<_>>(),
